@@ -632,6 +632,9 @@ func Monitor(spec *Spec, tr *Trace) []Finding {
 	if spec.Buffer && tr.OutputRead && !spec.WriterFails {
 		ms := chunkRe.FindAllStringSubmatch(tr.Output, -1)
 		rest := strings.ReplaceAll(chunkRe.ReplaceAllString(tr.Output, ""), ".", "")
+		if spec.Lines {
+			rest = strings.ReplaceAll(rest, "\n", "")
+		}
 		if rest != "" {
 			add("C15", "buffered output contains torn bytes: %q", rest)
 		}
